@@ -115,6 +115,9 @@ def load_known_findings() -> dict[str, Any]:
         return json.load(f)
 
 
+EVIDENCE_DIR: str | None = None
+
+
 def write_evidence(prop: str, tier: str, level: str, ctx: Ctx | None, wall: float, violations: int,
                    explanation: str, assumptions: list[str], trusted: list[str], extra: dict[str, Any] | None = None,
                    seed: int = 0) -> str:
@@ -166,8 +169,10 @@ def write_evidence(prop: str, tier: str, level: str, ctx: Ctx | None, wall: floa
         "wall_s": round(wall, 3),
         "violations": violations,
     }
-    os.makedirs(os.path.join(VERIF, "evidence"), exist_ok=True)
-    path = os.path.join(VERIF, "evidence", f"{prop}.json")
+    # a run against a scratch copy (--repo DIR: seeds, neutral variants, sweeps) must not replace the record of /repo itself
+    ev_dir = EVIDENCE_DIR or os.path.join(VERIF, "evidence")
+    os.makedirs(ev_dir, exist_ok=True)
+    path = os.path.join(ev_dir, f"{prop}.json")
     tmp = f"{path}.{os.getpid()}.tmp"
     with open(tmp, "w") as f:
         json.dump(ev, f, indent=1, sort_keys=False, default=str)
